@@ -120,6 +120,11 @@ class RDFWriter(object):
 
         :return: An RDF graph.
         """
+        # Every conversion starts from an empty graph; a writer that is used
+        # again must not export what the documents contained at an earlier call.
+        self.graph = Graph()
+        self.graph.bind("odml", ODML_NS)
+
         self.hub_root = URIRef(ODML_NS.Hub)
         if self.docs:
             for doc in self.docs:
